@@ -58,3 +58,13 @@ CLAIMS['C19'] = dict(
          'cursors advance, the writer emits a 4-byte length then the payload; for all 45 archive_traits specialisations (macro-generated ones included, instantiated by an analysis-only witness unit) save and load perform '
          'the same number of primitive chunk operations on every path (helper calls flattened), so a loader cannot skip or double-read a chunk that the saver wrote.',
     note='Assumes no size_t wrap of (32-bit length + offset) on the 64-bit target. Not decided: equality of arbitrary object graphs after a round trip, user-defined serializable classes.')
+
+CLAIMS['C06'] = dict(
+    category='other',
+    technique='static analysis: reaching definitions / provenance with gate edges, CFG pairing, lockset, linear bounds (Fourier-Motzkin)',
+    text='Decides: every id handed to storage load/save/remove in session_sid has, on every path, provenance {out-parameter of valid_sid on its true edge, get_new_sid()} (never the empty default); '
+         'remove() is only ever applied to the id the client presented; a presented valid id is replaced only after its record was removed; new-data is never saved under the presented id; '
+         'the cookie carries the saved id; get_new_sid takes >=16 bytes from urandom_device only and encodes all of them; every session_api::load overrider succeeds only past the deadline-vs-time() test, '
+         'the expired edge removes the record; session_memory_storage is accessed under its mutex and keeps record deadline and expiry-index key identical (erase old index entry before insert); '
+         'session_dual dispatches on the cookie type and clears the server record before switching to client storage; load_data/packed reads are proved inside the string (linear bounds with bit-field ranges).',
+    note='Not decided: value-exact carry-over across histories, renew-window arithmetic, exposed-cookie reconciliation, exactness of valid_sid (E3 rule pending). Trusted: std containers, the non-mutating accessor table.')
